@@ -158,7 +158,7 @@ def _spd(rec):
 @st.composite
 def _spd_part(draw, nmax):
     # few distinct sizes: every new (n, order, ...) signature costs one XLA compilation (seconds)
-    sizes = [k for k in (5, 8, 3, 12, 2, 1) if k <= nmax]
+    sizes = [k for k in (5, 8, 1, 3, 2, 12) if k <= nmax]
     n = sizes[draw(st.integers(0, len(sizes) - 1))]
     ints = draw(st.lists(st.integers(4, 256), min_size=n, max_size=n, unique=True))
     mult = draw(st.sampled_from(["simple", "simple", "simple", "double", "clustered"]))
@@ -424,11 +424,14 @@ def check_slq(rec):
 @st.composite
 def slq_recipes(draw, tier):
     key = draw(st.integers(0, 2 ** 31 - 1000))
-    orth = key % 5 == 0
+    orth = (key // 7) % 5 == 1
     if orth:
+        # two probes in two dimensions are orthogonal for every second key: the estimate must be log det A
         rec = draw(_spd_part(2))
-        rec["hh"] = rec["hh"] or [[1.0, 0.5][:rec["n"]]]
-        m = rec["n"]
+        if rec["n"] == 1:
+            rec.update(n=2, lam=[rec["lam"][0], rec["lam"][0] + 0.75], hh=[h + [0.5] for h in rec["hh"]])
+        rec["hh"] = rec["hh"] or [[1.0, 0.5]]
+        m = 2
     else:
         rec = draw(_spd_part(12))
         m = [2, 4, 1, 2][draw(st.integers(0, 3))]
@@ -847,7 +850,7 @@ def _jax_variant(draw):
     if method == "slq":
         v["slq"] = {"m": draw(st.integers(2, 5)), "key": draw(st.integers(0, 2 ** 31 - 1)),
                     "extra": [0, 2, 0][draw(st.integers(0, 2))], "jit": draw(st.integers(0, 2)) == 0,
-                    "reorth": ["full", "none", "partial", "full"][draw(st.integers(0, 3))],
+                    "reorth": ["none", "full", "partial", "none"][draw(st.integers(0, 3))],
                     "batch": [None, 2, None][draw(st.integers(0, 2))]}
     return v
 
